@@ -102,7 +102,7 @@ HARNESSES += [h for h in _c07.HARNESSES if h.name in ("H07a", "H07b")]
 # shared with C06
 from specs import c06 as _c06   # noqa: E402
 
-HARNESSES += [h for h in _c06.HARNESSES if h.name in ("H06a-rekey", "H06a-two-saves")]
+HARNESSES += [h for h in _c06.HARNESSES if h.name in ("H06a-rekey", "H06a-two-saves", "H06a-texts")]
 # a re-save writes every date / duration again from the value in memory: the sub-second write/read harnesses are shared
 # with C01 (H02-fix decides whole records but treats a date as "epoch + the stored double" without taking it apart)
 from specs import c01 as _c01   # noqa: E402
